@@ -42,7 +42,7 @@ var c10Events = []string{
 }
 
 func c10Gen(rt *rapid.T) c10Plan {
-	mode := rapid.SampledFrom([]string{"forge", "forge", "cross-event", "cross-event", "cross-round", "later", "later", "stale-batch", "forge-synth", "forge-synth", "forge-synth-named", "forge-synth-named", "forge-synth-json", "forge-synth-json"}).Draw(rt, "mode")
+	mode := rapid.SampledFrom([]string{"forge", "forge", "cross-event", "cross-event", "cross-round", "later", "later", "stale-batch", "forge-synth", "forge-synth", "forge-synth-named", "forge-synth-named", "forge-synth-json", "forge-synth-json", "squat", "squat"}).Draw(rt, "mode")
 	nt := rapid.SampledFrom([][2]int{{2, 2}, {3, 2}, {4, 3}}).Draw(rt, "nt")
 	p := c10Plan{Mode: mode, N: nt[0], T: nt[1], Step: rapid.IntRange(0, 500).Draw(rt, "step"),
 		Other: rapid.IntRange(1, 7).Draw(rt, "other"), Event: rapid.IntRange(0, len(c10Events)-1).Draw(rt, "event"),
@@ -54,7 +54,7 @@ func c10Gen(rt *rapid.T) c10Plan {
 		p.Trace = "twobatches"
 	case "forge-synth-named":
 		p.Trace = rapid.SampledFrom([]string{"honest", "twobatches", "honest-twins", "honest-twins"}).Draw(rt, "trace")
-	case "forge-synth", "forge-synth-json":
+	case "forge-synth", "forge-synth-json", "squat":
 		p.Trace = rapid.SampledFrom([]string{"honest", "twobatches"}).Draw(rt, "trace")
 	case "later":
 		p.Trace = rapid.SampledFrom([]string{"twobatches", "twobatches", "honest"}).Draw(rt, "trace")
@@ -96,8 +96,49 @@ func c10Run(t *testing.T, st *vstat.Stats, p c10Plan) (v *viol) {
 	target := src
 	var msg storage.Message
 	var synthOwn *storage.Message
+	var pre []storage.Message // shown to the same running node before the message under test
 	var key, what string
 	switch p.Mode {
+	case "squat":
+		// S opens a round of its own in which the name of P is registered with a key S holds, posts there - validly for
+		// that round - a request in P's name, and then re-posts the same bytes under the first round, where P is awaited
+		evs := c10StateEvents[src.State]
+		if len(evs) == 0 {
+			st.Class("discarded:no-events-for-state")
+			return nil
+		}
+		ev := evs[p.Event%len(evs)]
+		pIdx := p.Other % tr.N
+		sIdx := (pIdx + 1 + p.Later%(tr.N-1)) % tr.N
+		data := c10Synth(ev, pIdx, src.Msg)
+		squatKey := world.KeyPairFromSeed([]byte("a key S made for P's name"))
+		var initBody map[string]any
+		for _, m := range tr.Board {
+			if m.Event == "event_sig_proposal_init" && m.DkgRoundID == tr.Round {
+				_ = json.Unmarshal(m.Data, &initBody)
+				break
+			}
+		}
+		parts, _ := initBody["Participants"].([]any)
+		if initBody == nil || len(parts) != tr.N {
+			return violf("harness", "no opening proposal of the round in the trace")
+		}
+		for _, x := range parts {
+			if e, ok := x.(map[string]any); ok && e["Username"] == tr.Names[pIdx] {
+				e["PubKey"] = squatKey.Pub
+			}
+		}
+		initBody["CreatedAt"] = "2000-01-01T00:09:00Z"
+		body, _ := json.Marshal(initBody)
+		other := strings.Repeat("5a", 32)
+		pre = []storage.Message{
+			{DkgRoundID: other, Event: "event_sig_proposal_init", Data: body, SenderAddr: tr.Names[sIdx], Signature: ed25519.Sign(tr.Keys[sIdx].Priv, body)},
+			{DkgRoundID: other, Event: ev, Data: data, SenderAddr: tr.Names[pIdx], Signature: ed25519.Sign(squatKey.Priv, data)},
+		}
+		msg = storage.Message{DkgRoundID: tr.Round, Event: ev, Data: data, SenderAddr: tr.Names[pIdx], Signature: ed25519.Sign(squatKey.Priv, data)}
+		synthOwn = &storage.Message{DkgRoundID: tr.Round, Event: ev, Data: data, SenderAddr: tr.Names[pIdx], Signature: ed25519.Sign(tr.Keys[pIdx].Priv, data)}
+		key = "forged-via-another-round:" + ev
+		what = fmt.Sprintf("a %s request in the name of %s signed with a key that %s registered for that name in a round of its own (where the same bytes were shown to the node first)", ev, tr.Names[pIdx], tr.Names[sIdx])
 	case "forge":
 		pid, ok := participantIDOf(src.Msg.Data)
 		sidx := nameIndex(tr, src.Msg.SenderAddr)
@@ -255,6 +296,9 @@ func c10Run(t *testing.T, st *vstat.Stats, p c10Plan) (v *viol) {
 			return
 		}
 		defer func() { nd.Close(); world.Drain() }()
+		for _, m := range pre {
+			_ = nd.Svc.ProcessMessage(m)
+		}
 		before := kvSnapshot(nd)
 		perr := nd.Svc.ProcessMessage(msg)
 		changed := existingStateChanged(before, kvSnapshot(nd))
@@ -264,7 +308,7 @@ func c10Run(t *testing.T, st *vstat.Stats, p c10Plan) (v *viol) {
 		}
 		// non-triviality: the original is acceptable in its own round and step
 		nontrivial := false
-		if p.Mode == "forge-synth" || p.Mode == "forge-synth-named" || p.Mode == "forge-synth-json" {
+		if p.Mode == "forge-synth" || p.Mode == "forge-synth-named" || p.Mode == "forge-synth-json" || p.Mode == "squat" {
 			// non-trivial iff the very same request, signed by the participant it is made out for, is accepted here
 			nd2, dir2, err := openSnapshot(tr, src.SnapDir)
 			if err == nil {
